@@ -28,7 +28,7 @@ prop("C01",
      assumptions=["ghost disk: one stream, bytes tracked at one arbitrary offset", "HTPinquire/HTPupdate stubs give the DD the access record is attached to"])
 
 prop("C13",
-     residual="V/VS/GR/AN/SD instance tables and their id spaces; repeated opens of one path; library re-initialisation; "
+     residual="(round 3, c13_sdids.py: the SD id codec and its users for ANY int32 id, GR image ids over a ghost atom table (bounded).)  NOT decided: V/VS/AN instance tables and their id spaces; repeated opens of one path; library re-initialisation; "
               "wrong-kind ids (HAatom_object does not check the group: a file id passed where an access id is expected is "
               "type-confused -- assumed away as A-KIND in the H-layer contracts); SD ids carry no generation",
      assumptions=["A-KIND: callers pass identifiers of the right kind to Hread/Hwrite/Hseek/... (the H layer does not check the atom group)",
@@ -48,5 +48,5 @@ prop("C17",
      assumptions=["each library-level write (HP_write) is atomic and ordered, as the property states",
                   "low-water mark g_L = end of file at session start; the session has descriptor caching on"])
 prop("C20",
-     residual="open-file table limits, 32/33 dimensions, name-length limits outside the units listed, usability of the file after a refused request",
+     residual="(round 3, c20_lim.py: dfgroup.c group table and DI lists, VHstoredatam order/size limits, SDcreate rank 32/33 and variable-count limits, the netCDF open-file table; OPEN findings K5/K6.)  NOT decided: name-length limits outside the units listed, usability of the file after a refused request",
      assumptions=["file size limit enforced as f_end_off <= 2^31-2 (one byte conservative: HIextend_file writes one byte at f_end_off)"])
